@@ -138,6 +138,8 @@ def gen_plan(seed, tier):
             "out": r.choice(["PartitionAndSumsTuple", "PartitionAndSumsTuple", "PartitionAndSums", "Partition", "Sums"])}
     if plan["form"] in ("dict", "names"):
         plan["names"] = [f"n{j}" for j in range(n)]
+    plan["copies_form"] = r.choice(["list", "list", "list", "tuple", "ndarray"])
+    plan["weights_form"] = r.choice(["list", "list", "list", "tuple", "ndarray"])
     plan["log"] = r.choice([None, None, None, None, None, "INFO", "DEBUG"])
     # an extra constraint (only for unweighted / uniform models: see DESIGN 5.2), c around reachable values
     if wm != "non-uniform" and r.random() < 0.45:
@@ -218,6 +220,16 @@ def _constraint_fn(con, weights):
     return lambda sums: [sums[0] >= c]
 
 
+def _present(value, form):
+    """How the caller spells a per-item / per-bin option: a list (documented), or another sequence type."""
+    if not isinstance(value, list) or form in (None, "list"):
+        return list(value) if isinstance(value, list) else value
+    if form == "tuple":
+        return tuple(value)
+    import numpy as np
+    return np.array(value)
+
+
 def _call(plan, solver_mode, weights="plan"):
     import numpy as np
     import prtpy
@@ -237,10 +249,10 @@ def _call(plan, solver_mode, weights="plan"):
         items = list(values)
     kw = {"objective": _objective(plan["objective"])}
     if plan["copies"] is not None:
-        kw["copies"] = plan["copies"]
+        kw["copies"] = _present(plan["copies"], plan.get("copies_form"))
     w = plan["weights"] if weights == "plan" else weights
     if w is not None:
-        kw["weights"] = list(w)
+        kw["weights"] = _present(list(w), plan.get("weights_form"))
     cf = _constraint_fn(plan["constraint"], w)
     if cf is not None:
         kw["additional_constraints"] = cf
@@ -395,6 +407,17 @@ def execute(plan, seed=0):
         if s["mode"] == "sim_timeout":
             res.probe("sim_timeout_not_reached_real_solve")
         v1 = _judge(plan, outcome, cache)
+        if v1 and outcome[0] == "exc" and (plan.get("copies_form") not in (None, "list") or plan.get("weights_form") not in (None, "list")):
+            # the options were spelled as a tuple / numpy array; the documented spelling is a list. Refusing another
+            # spelling with an error is the library's right - a silently wrong answer is not. Judge the list spelling.
+            plan_l = dict(plan, copies_form="list", weights_form="list")
+            o_l = _call(plan_l, s)
+            res.evaluations += 1
+            if o_l[0] == "ok":
+                res.note("non_list_option_spelling_refused")
+                tr.add("respelled-as-list", first=canon(outcome[1]), outcome=canon(o_l[1]))
+                plan, outcome = plan_l, o_l
+                v1 = _judge(plan, outcome, cache)
         if v1:
             # discriminator: the same request with CBC preprocessing off, and if the mismatch persists, with cut
             # generation off as well (plain branch and bound). prtpy's own code runs unchanged; only the solver is made
@@ -477,6 +500,8 @@ def shrink_candidates(plan, clause):
         yield mk(solver={k: v for k, v in plan["solver"].items() if k != "x_noise"})
     if plan["form"] != "list":
         yield mk(form="list")
+    if plan.get("copies_form") not in (None, "list") or plan.get("weights_form") not in (None, "list"):
+        yield mk(copies_form="list", weights_form="list")
     if plan["out"] != "PartitionAndSumsTuple":
         yield mk(out="PartitionAndSumsTuple")
     if plan["constraint"] is not None:
